@@ -1045,6 +1045,20 @@ def check_key_lemma(ctx):
     sets = any(isinstance(x, ast.Assign) and any(isinstance(t, ast.Attribute) and t.attr == "_key" for t in x.targets) and isinstance(x.value, ast.Name)
                and x.value.id == bsk.positional_params[2] for x in ast.walk(bsk.node))
     ctx.ob("lemma.key-invariant", bsk, "self._key = key", sets, "BaseField.__setkey__ records the key" if sets else "BaseField.__setkey__ no longer records the key")
+    # ... on every path: a field constructed with its own key= (or re-mounted under another name) is told the name it is
+    # registered under all the same, otherwise paths, membership and stored values use a key the field table does not know
+    gb = an.cfg(bsk)
+    kp = bsk.positional_params[2]
+    stores_ = {m for m in gb.nodes if m.kind == "assign" and isinstance(m.ast, ast.Assign) and any(
+        isinstance(t, ast.Attribute) and t.attr == "_key" and isinstance(t.value, ast.Name) and t.value.id == bsk.self_name for t in m.ast.targets)
+        and isinstance(m.ast.value, ast.Name) and m.ast.value.id == kp}
+    if sets:
+        from engine.flow import path_avoiding as _pa
+        skip_ = _pa(an, bsk, gb.entry, lambda x: x is gb.exit, lambda x: x in stores_)
+        ctx.ob("lemma.key-invariant", bsk, "self._key = key on every path", skip_ is None,
+               "the key the schema provides is recorded unconditionally" if skip_ is None else
+               "BaseField.__setkey__ can return without recording the key it was given (a field that already has a key keeps it): the field "
+               "is registered under one name and reports, stores and resolves under another")
 
 
 def check_type_gates(ctx):
